@@ -56,10 +56,13 @@ static void installCrashNote(const std::string &path) {
 #ifdef VERIF_SANITIZER
     __sanitizer_set_death_callback(dumpCurrent);
 #endif
-    for (int s : {SIGSEGV, SIGBUS, SIGABRT, SIGFPE, SIGILL})
+    for (int s : {SIGSEGV, SIGBUS, SIGABRT, SIGFPE, SIGILL, SIGALRM})
         signal(s, onSignal);
 }
+// every execution is also given a deadline: a call that never returns (e.g. on a heap
+// corrupted by an out-of-bounds write) ends the harness with the crash note
 static void setCurrent(const std::string &s) {
+    alarm(120);
     size_t n = std::min(s.size(), sizeof g_current - 1);
     memcpy(g_current, s.data(), n);
     g_current[n] = 0;
@@ -457,6 +460,7 @@ static int record(const json &plan) {
     const int histories = plan.value("histories", 20);
     const int steps = plan.value("steps", 100);
     const int nmax = plan.value("nmax", 6);
+    (void)nmax;
     const std::vector<std::string> ops = plan.at("ops");
     const std::vector<int> labels = plan.value("labels", std::vector<int>{0, 1, 2});
     const std::vector<int> mults = plan.value("mults", std::vector<int>{0, 1, 2, 3});
@@ -466,6 +470,7 @@ static int record(const json &plan) {
     const std::string kind = plan.at("kind"); // nolabel | labeled | multi | weighted
     const bool directed = plan.at("directed");
     const int maxCopies = plan.value("max_copies", 3);
+    const int multCap = plan.value("mult_cap", 0);
     installCrashNote(plan.value("crash_note", std::string()));
     auto &facs = registry()[group];
     if (famIdx >= facs.size()) {
@@ -476,7 +481,11 @@ static int record(const json &plan) {
     std::mt19937 rng(seed);
     auto pick = [&](size_t n) { return (size_t)(rng() % n); };
     size_t events = 0;
+    const int nmaxBase = nmax;
+    const int bigEvery = plan.value("big_every", 0);
     for (int h = 0; h < histories; ++h) {
+        // every big_every-th history runs on a larger graph (up to twice the vertices)
+        const int nmax = (bigEvery && h % bigEvery == bigEvery - 1) ? nmaxBase * 2 : nmaxBase;
         std::unique_ptr<IObj> o = facs[famIdx]();
         os << json({{"c", {{"op", "reset"}}}}).dump() << "\n";
         json hist = json::array();
@@ -575,6 +584,27 @@ static int record(const json &plan) {
                     c = {{"op", "removeDuplicateEdges"}};
                 else
                     c["f"] = false;
+            }
+            // keep stored multiplicities within the cap (see mult_cap): an insertion that would
+            // exceed it becomes a setEdgeMultiplicity to the cap
+            if (multCap > 0 && kind == "multi" && isAdd && c.contains("i")) {
+                int ci = c["i"].get<int>(), cj = c["j"].get<int>();
+                if (ci >= 0 && cj >= 0 && ci < n && cj < n) {
+                    json st = o->enc();
+                    auto cur = [&](int a, int b) {
+                        if (!directed && a > b)
+                            std::swap(a, b);
+                        int v = st["lab"][a][b].get<int>();
+                        return v < 0 ? 0 : v;
+                    };
+                    int k = c.contains("k") ? c["k"].get<int>() : 1;
+                    bool recip = c["op"] == "addReciprocalEdge" || c["op"] == "addReciprocalMultiedge";
+                    int most = std::max(cur(ci, cj), recip ? cur(cj, ci) : 0);
+                    if (recip && ci == cj)
+                        most += k; // a reciprocal insertion of a loop adds twice
+                    if (most + k > multCap || c.value("f", false))
+                        c = {{"op", "setEdgeMultiplicity"}, {"i", ci}, {"j", cj}, {"k", std::min(multCap, std::max(k, 1))}};
+                }
             }
             setCurrent(json({{"kind", "record"}, {"group", group}, {"family_index", famIdx}, {"history", hist}, {"call", c}}).dump());
             std::string out = o->apply(c);
